@@ -516,6 +516,10 @@ top:
 		if err != nil {
 			return err
 		}
+		if r == '*' {
+			// "**/": the asterisk just read may itself start the closing "*/"
+			return nil
+		}
 		lexer.state = LexerCommentBlock
 		goto writeRuneToBuffer
 
